@@ -27,6 +27,12 @@ CLAIMED = {
          "Every sample's path from bucket to rendered line is decided structurally (drain once, record once, cumulative counters rendered); f64 sum equality and concurrency of the bucket itself (C05) are residue."),
  "C08": ("abstract output-alphabet analysis of the escaper (per-iteration reachability from the character switch), predicate-table and gate analysis of the name sanitisers, family-name agreement and TYPE-dominates-samples over render's CFG, suffix/label tables, type/variant condition agreement",
          "Well-formedness is decided for all input strings because every emitted unit is shown to be a complete escape or a harmless character on every path; decided for all Unit values and both distribution variants."),
+ "C09": ("must-pass-through of the placeholder re-add after every buffer shrink, symbolic term coverage of the splitter's shadow length against the segments written, commit/accounting pairing by dominance, message-segment order and formatter table — over MIR of writer.rs",
+         "Decides for every path of commit/Drop for Payloads/write_* that framing invariants and accounting pairings hold and that every written segment is counted; the arithmetic that makes assert!(commit()) unreachable is argued, not proved."),
+ "C10": ("atomic protocol table of AtomicCounter/AtomicGauge (single read of current, swap, single RMW), skip-path reachability in State::flush cut at value==0 edges, documentation-vs-arm table for AggregationMode, transport/write-call table, destructive-read table",
+         "Decides the per-operation atomic protocol and that a destructively read delta is written or proven zero on every path; multi-word races of AtomicCounter are residue."),
+ "C11": ("ownership of the taken buffer on every connection-keeping exit of drive_connection (reachability cut at restore sites), parked-value provenance, decrement gating, must-wake-after-send, capacity constant range, name-preserving operation tables",
+         "Decides on every path that an unwritten buffer is parked again, that clients are counted out only when removed, and that every enqueue wakes the transport; mio behaviour and liveness are residue."),
 }
 checks = []
 for p in props:
